@@ -12,6 +12,7 @@ verus! {
 //@ include prelude/cosmwasm.rs
 //@ include prelude/cw_plus.rs
 //@ include prelude/cw_utils.rs
+//@ include prelude/staking_prelude.rs
 //@ include contracts/repo_types.rs
 //@ include prelude/router_traits.rs
 //@ include spec/bank_sem.rs
